@@ -9,6 +9,10 @@ import OFV.Proofs.C19LCU
 import OFV.Proofs.C19Qrom
 import OFV.Proofs.C19QR
 import OFV.Proofs.C19Cost
+import OFV.Proofs.C19LambdaFinal
+import OFV.Proofs.C19LambdaOracle
+import OFV.Proofs.C19MolId
+import OFV.Proofs.C19Mono
 
 namespace OFV.C19
 open OFV.Model.C19 OFV.Spec.C19
@@ -123,5 +127,151 @@ theorem iters_monotone (lam lam' dE dE' : Rat) (a b : Nat) (ha : iters lam dE = 
 example : iters 2 1 = some 4 := OFV.Proofs.C19C.iters_two_one
 
 example : (4 : Nat) ≤ 4 := iters_monotone 2 2 1 1 4 4 OFV.Proofs.C19C.iters_two_one OFV.Proofs.C19C.iters_two_one (le_refl _) (le_refl _)
+
+/-! ### cost functions and QROM helpers, beyond the statements above -/
+
+/-- `cost_sparse`: the per-step Toffoli cost is positive for ALL parameters and does not depend on `lam`, `dE`;
+hence the total is monotone in `lam` and in `1/dE` (no side condition). -/
+theorem sparse_total_monotone (n d chi br : Nat) (lam lam' dE dE' : Rat) (c c' : Costs)
+    (h : sparseCost n lam d dE chi br = some c) (h' : sparseCost n lam' d dE' chi br = some c')
+    (hl : lam ≤ lam') (hd : dE' ≤ dE) : 0 < c.step ∧ c.step = c'.step ∧ c.total ≤ c'.total := by
+  obtain ⟨h1, h2⟩ := OFV.Proofs.C19M.sparse_total_mono n d chi br lam lam' dE dE' c c' h h' hl hd
+  obtain ⟨_, _, hs, _⟩ := OFV.Proofs.C19C.sparse_total n lam d dE chi br c h
+  exact ⟨by rw [hs]; exact OFV.Proofs.C19M.sparseStepCost_pos n d chi br, h1, h2⟩
+
+/-- `compute_cost` (THC), even number of spin orbitals: the per-step cost does not depend on `lam`, `dE`, and the
+total is monotone in `lam` and `1/dE` whenever that per-step cost is non-negative. -/
+theorem thc_total_monotone (n chi beta M br : Nat) (lam lam' dE dE' : Rat) (c c' : Costs) (hn : n % 2 = 0)
+    (h : thcCost n lam dE chi beta M br = some c) (h' : thcCost n lam' dE' chi beta M br = some c')
+    (hl : lam ≤ lam') (hd : dE' ≤ dE) : c.step = c'.step ∧ (0 ≤ c.step → c.total ≤ c'.total) :=
+  OFV.Proofs.C19M.thc_total_mono n chi beta M br lam lam' dE dE' c c' hn h h' hl hd
+
+/-- `QR2` beyond the searched grid: for table sizes `L1, L2 ≤ 2^16` the returned value is minimal over ALL
+exponents `k1, k2 ≥ 1` (larger blocks only add to the `M (2^(k1+k2) - 1)` term once `⌈L/2^k⌉` has reached 1). -/
+theorem qr2_global_minimiser (L1 L2 M : Nat) (h1 : L1 ≤ 2 ^ 16) (h2 : L2 ≤ 2 ^ 16) (j1 j2 : Nat) (hj1 : 1 ≤ j1) (hj2 : 1 ≤ j2) :
+    (qr2 L1 L2 M).2.2 ≤ qr2Value L1 L2 M j1 j2 := by
+  have hg := OFV.Proofs.C19M.grid_all _ _ _ _ (qr2_minimiser L1 L2 M) (min j1 16) (min j2 16)
+    ⟨by omega, by omega⟩ ⟨by omega, by omega⟩
+  refine le_trans hg ?_
+  unfold qr2Value
+  exact OFV.Proofs.C19M.clamp_le L1 L2 (fun t => M * (2 ^ t - 1))
+    (fun a b hab => Nat.mul_le_mul_left _ (Nat.sub_le_sub_right (Nat.pow_le_pow_right (by norm_num) hab) 1)) h1 h2 j1 j2
+
+/-- `QI2` beyond the searched grid, same statement. -/
+theorem qi2_global_minimiser (L1 L2 : Nat) (h1 : L1 ≤ 2 ^ 16) (h2 : L2 ≤ 2 ^ 16) (j1 j2 : Nat) (hj1 : 1 ≤ j1) (hj2 : 1 ≤ j2) :
+    (qi2 L1 L2).2.2 ≤ qi2Value L1 L2 j1 j2 := by
+  have hg := OFV.Proofs.C19M.grid_all _ _ _ _ (qi2_minimiser L1 L2) (min j1 16) (min j2 16)
+    ⟨by omega, by omega⟩ ⟨by omega, by omega⟩
+  refine le_trans hg ?_
+  unfold qi2Value
+  exact OFV.Proofs.C19M.clamp_le L1 L2 (fun t => 2 ^ t)
+    (fun a b hab => Nat.pow_le_pow_right (by norm_num) hab) h1 h2 j1 j2
+
+example : (qr2 100 37 7).2.2 ≤ qr2Value 100 37 7 20 3 :=
+  qr2_global_minimiser 100 37 7 (by norm_num) (by norm_num) 20 3 (by norm_num) (by norm_num)
+
+/-! ### `lambda_norm` and the Jordan-Wigner image -/
+
+/-- **`lambda_norm` is the 1-norm of the non-identity Jordan-Wigner coefficients** — every size `n`, every real
+symmetric `T = one_body` and `V = two_body` (passed to the Model of `jordan_wigner(DiagonalCoulombHamiltonian)`,
+`Model.C04.jwDCH`, as the row-major tensors `one`, `two`), every (complex) constant.  On every exact run of the
+transform (`jwDCHOk`: no `+=` discards a non-zero value, evaluated by the driver on the generated inputs):
+
+* the Model of `lambda_norm` (the double loop with `z_vector`) equals the sum of `|c|` over the non-identity Pauli
+  strings of the image (`Z_j`, `Z_a Z_b`, `X_a Z…Z X_b`, `Y_a Z…Z Y_b`; all other strings have coefficient 0);
+* all those coefficients are real;
+* the image acts on every basis state like the Spec operator `const + Σ T_pq a†_p a_q + Σ V_pq n_p n_q`
+  (`C04.jw_dch_sound`, restated here for the same hypotheses).
+
+That the coefficient list of the image is THE Pauli decomposition in the sense of the oracle `Spec.C19.jwOneNorm` is
+`pauli_decomposition_unique` / `lambda_norm_oracle` below. -/
+theorem lambda_norm_spec (tol : Rat) (n : Nat) (const : GQ) (one two : List GQ) (T V : List (List Rat))
+    (hn : T.length = n)
+    (hT : ∀ p q, p < n → q < n → Model.C04.get1 n one p q = Model.C04.rl (mat T p q))
+    (hV : ∀ p q, p < n → q < n → Model.C04.get1 n two p q = Model.C04.rl (mat V p q))
+    (symT : ∀ p q, p < n → q < n → mat T q p = mat T p q)
+    (symV : ∀ p q, p < n → q < n → mat V q p = mat V p q)
+    (hok : Model.C04.jwDCHOk tol n const one two = true) :
+    lambdaNorm T V = OFV.C19Jw.pauliNormNonId (Model.C04.jwDCH tol n const one two)
+    ∧ (∀ tc ∈ Model.C04.jwDCH tol n const one two, tc.1 ≠ [] → tc.2.im = 0)
+    ∧ (∀ m x : Nat, Spec.GV.coeff (Spec.applyOp .qubit (Model.C04.jwDCH tol n const one two) [m]) [x]
+        = Spec.GV.coeff (Spec.applyOp .fermion (Spec.C04.dchOp n const one two) [m]) [x]) := by
+  refine ⟨OFV.C19Jw.lambdaNorm_eq_pauliNorm tol n const one two T V hn hT hV symT symV hok,
+    fun tc htc hne => OFV.C19Jw.jwDCH_real tol n const one two T V hT hV hok tc htc hne, fun m x => ?_⟩
+  refine OFV.Sem.jwDCH_sound tol n const one two ?_ ?_ hok m x
+  · intro p q hp hq
+    rw [hT q p hq hp, hT p q hp hq, symT p q hp hq]; rfl
+  · intro p q hp hq
+    rw [hV q p hq hp, hV p q hp hq, symV p q hp hq]
+
+/-- the hypotheses of `lambda_norm_spec` hold for a concrete 3-orbital Hamiltonian and both sides are `13/4` -/
+example :
+    let T : List (List Rat) := [[1, mkRat 1 2, 0], [mkRat 1 2, -2, -1], [0, -1, 3]]
+    let V : List (List Rat) := [[0, mkRat 1 2, -1], [mkRat 1 2, 0, 0], [-1, 0, 0]]
+    let one : List GQ := [⟨1, 0⟩, ⟨mkRat 1 2, 0⟩, 0, ⟨mkRat 1 2, 0⟩, ⟨-2, 0⟩, ⟨-1, 0⟩, 0, ⟨-1, 0⟩, ⟨3, 0⟩]
+    let two : List GQ := [0, ⟨mkRat 1 2, 0⟩, ⟨-1, 0⟩, ⟨mkRat 1 2, 0⟩, 0, 0, ⟨-1, 0⟩, 0, 0]
+    Model.C04.jwDCHOk Generated.eqTolerance 3 ⟨mkRat 3 4, 0⟩ one two = true
+      ∧ lambdaNorm T V = OFV.C19Jw.pauliNormNonId (Model.C04.jwDCH Generated.eqTolerance 3 ⟨mkRat 3 4, 0⟩ one two) := by
+  decide +kernel
+
+/-- **Uniqueness of the Pauli decomposition, in the form the Spec oracle evaluates it.**  Let `A` be any fermionic
+operator and `R` a qubit operator in Pauli form — pairwise different keys, every key a canonical string on `n` qubits
+(strictly increasing qubit indices `< n`, letters X / Y / Z), real coefficients on the non-identity strings — that acts
+on every basis state like `A`.  Then `jwOneNorm n A false` (which enumerates all `4^n` mask pairs `(x, z)` and takes the
+trace of `P_{x,z} A` over all `2^n` Fock states, using only the Spec ladder action) returns exactly the sum of `|c|` over
+the non-identity strings of `R`.  Proof: trace orthogonality of canonical strings (`Σ_s (-1)^{|w ∧ s|} = 0` for `w ≠ 0` by
+a sign-reversing involution), the mask pair determines the string, and the action of a canonical string is
+`i^{#Y} (-1)^{|zmask ∧ s|} |s ⊕ xmask⟩`. -/
+theorem pauli_decomposition_unique (n : Nat) (A R : Model.Op) (wf : Dict.WF R)
+    (hcanon : ∀ tc ∈ R, OFV.C19P.Canon n tc.1) (hreal : ∀ tc ∈ R, tc.1 ≠ [] → tc.2.im = 0)
+    (heq : ∀ m u : Nat, Spec.GV.coeff (Spec.applyOp .qubit R [m]) [u] = Spec.GV.coeff (Spec.applyOp .fermion A [m]) [u]) :
+    jwOneNorm n A false = some (pauliListNorm R false) :=
+  OFV.C19P.jwOneNorm_pauli n A R wf hcanon hreal heq
+
+/-- **`lambda_norm` is the value of the Spec oracle** for every `n` and every real symmetric DiagonalCoulombHamiltonian:
+the Model of `lambda_norm` equals `jwOneNorm` (1-norm of the non-identity coefficients of the Pauli decomposition,
+computed from the Spec ladder action on all Fock states) of `const + Σ T_pq a†_p a_q + Σ V_pq n_p n_q`, on every exact
+run of the Model of the Jordan-Wigner transform (hypothesis `jwDCHOk`, evaluated by the driver on every generated
+Hamiltonian). -/
+theorem lambda_norm_oracle (tol : Rat) (n : Nat) (const : GQ) (one two : List GQ) (T V : List (List Rat))
+    (hn : T.length = n)
+    (hT : ∀ p q, p < n → q < n → Model.C04.get1 n one p q = Model.C04.rl (mat T p q))
+    (hV : ∀ p q, p < n → q < n → Model.C04.get1 n two p q = Model.C04.rl (mat V p q))
+    (symT : ∀ p q, p < n → q < n → mat T q p = mat T p q)
+    (symV : ∀ p q, p < n → q < n → mat V q p = mat V p q)
+    (hok : Model.C04.jwDCHOk tol n const one two = true) :
+    jwOneNorm n (Spec.C04.dchOp n const one two) false = some (lambdaNorm T V) :=
+  OFV.C19Jw.lambdaNorm_eq_oracle tol n const one two T V hn hT hV symT symV hok
+
+/-! ### `get_one_norm_int`: the identity coefficient -/
+
+/-- **What `get_one_norm_int_woconst` leaves out is exactly the identity coefficient of the Pauli decomposition.**
+For every number of spatial orbitals and ALL real integrals (no symmetry needed): the trace of the molecular
+Hamiltonian `Spec.C19.molOp` (`constant + Σ h_pq a†_{pσ} a_{qσ} + ½ Σ g_pqrs a†_{pσ} a†_{qτ} a_{rτ} a_{sσ}`), computed from
+the Spec ladder action over all `4^n` Fock states as the oracle does (`pauliTrace … 0 0`), is `4^n · c` with
+`c = constant + Σ_p h_pp + Σ_pq (½ g_pqqp − ¼ g_pqpq)`, and the Model of `get_one_norm_int` is `|c|` plus the Model of
+`get_one_norm_int_woconst`.  (The equality of the remaining part with the non-identity 1-norm is the open statement
+`one_norm_spec`.) -/
+theorem one_norm_identity_coefficient (const : Rat) (h : List (List Rat)) (g : List (List (List (List Rat)))) :
+    ∃ c : Rat,
+      pauliTrace (2 * h.length) ((List.range (2 ^ (2 * h.length))).map (Spec.applyF (molOp h.length const h g))) 0 0
+        = ((2 ^ (2 * h.length) : Nat) : GQ) * (⟨c, 0⟩ : GQ)
+      ∧ oneNorm const h g = Model.C19.rabs c + oneNormWoConst h g :=
+  ⟨OFV.C19P.htildeF h.length const h g, OFV.C19P.mol_trace h.length const h g, OFV.C19P.oneNorm_split const h g⟩
+
+/-- `lambda_norm_spec` in the form the driver evaluates (`c19.spec.dch_pauli_norm`): the matrices are flattened by
+`Spec.C19.flatReal`, the threshold is the extracted `EQ_TOLERANCE`; the driver reports `jwDCHOk` and the 1-norm
+`pauliListNorm` of the Model's Jordan-Wigner image for every generated real symmetric Hamiltonian, and the harness
+compares the latter with the implementation's `lambda_norm`. -/
+theorem lambda_norm_spec_flat (const : GQ) (T V : List (List Rat))
+    (symT : ∀ p q, p < T.length → q < T.length → mat T q p = mat T p q)
+    (symV : ∀ p q, p < T.length → q < T.length → mat V q p = mat V p q)
+    (hok : Model.C04.jwDCHOk Generated.eqTolerance T.length const (flatReal T.length T) (flatReal T.length V) = true) :
+    lambdaNorm T V
+      = pauliListNorm (Model.C04.jwDCH Generated.eqTolerance T.length const (flatReal T.length T) (flatReal T.length V)) false := by
+  rw [← OFV.C19Jw.pauliNormNonId_eq]
+  exact (lambda_norm_spec Generated.eqTolerance T.length const _ _ T V rfl
+    (fun p q hp hq => OFV.C19Jw.get1_flatReal T.length T p q hp hq) (fun p q hp hq => OFV.C19Jw.get1_flatReal T.length V p q hp hq)
+    symT symV hok).1
 
 end OFV.C19
